@@ -117,6 +117,51 @@ CLAIMS = {
         design="§7 C11",
         note=TB + "ast.unparse and black are not modelled: 'file parses' and tree identity after re-emission are checked per run.",
     ),
+    "C02": dict(
+        technique="Lean 4 theorems on interface-level normal forms (what emit->parse does to a description) + differential run conv = norm on every in-domain description; round-trip predicate on the real code",
+        text=(
+            "Kernel-checked: Kinds.pres_class (one conversion keeps every parameter's prose, type and explicit default and only "
+            "fills absent defaults), norm_pres (names and order kept; return entry kept or lost, never invented), norm_cls_idem, "
+            "for ALL descriptions (no size bound). These theorems speak about Kinds.norm, an interface-level model of "
+            "emit.class_ followed by parse.class_ (the AST construction itself is not yet modelled statement by statement); "
+            "the tie is the differential run: for every generated description inside Kinds.dom the real emit -> ast.unparse -> "
+            "ast.parse -> parse result must equal Kinds.norm. The property predicate (names, order, types, prose, explicit "
+            "defaults with their Python type, permitted normalisation only) runs on the real code for every case, inside and "
+            "outside that domain; the classes where it fails today are recorded findings."
+        ),
+        design="§7 C02",
+        note=TB + "Interface-level model (emit∘parse as one function of the IR); ast.unparse/ast.parse run for real. word_wrap is exercised only where everything fits the line (else C18).",
+    ),
+    "C03": dict(
+        technique="Lean 4 theorems on interface-level normal forms (what emit->parse does to a description) + differential run conv = norm on every in-domain description; round-trip predicate on the real code",
+        text=(
+            "Kernel-checked: Kinds.pres_func (one conversion keeps every parameter's prose, type and explicit default and only "
+            "fills absent defaults), norm_pres (names and order kept; return entry kept or lost, never invented), norm_func_idem, "
+            "for ALL descriptions (no size bound). These theorems speak about Kinds.norm, an interface-level model of "
+            "emit.function followed by parse.function (the AST construction itself is not yet modelled statement by statement); "
+            "the tie is the differential run: for every generated description inside Kinds.dom the real emit -> ast.unparse -> "
+            "ast.parse -> parse result must equal Kinds.norm. The property predicate (names, order, types, prose, explicit "
+            "defaults with their Python type, permitted normalisation only) runs on the real code for every case, inside and "
+            "outside that domain; the classes where it fails today are recorded findings."
+        ),
+        design="§7 C03",
+        note=TB + "Interface-level model (emit∘parse as one function of the IR); ast.unparse/ast.parse run for real. word_wrap is exercised only where everything fits the line (else C18).",
+    ),
+    "C04": dict(
+        technique="Lean 4 theorems on interface-level normal forms (what emit->parse does to a description) + differential run conv = norm on every in-domain description; round-trip predicate on the real code",
+        text=(
+            "Kernel-checked: Kinds.pres_argparse (one conversion keeps every parameter's prose, type and explicit default and only "
+            "fills absent defaults), norm_pres (names and order kept; return entry kept or lost, never invented), "
+            "for ALL descriptions (no size bound). These theorems speak about Kinds.norm, an interface-level model of "
+            "emit.argparse_function followed by parse.argparse_ast (the AST construction itself is not yet modelled statement by statement); "
+            "the tie is the differential run: for every generated description inside Kinds.dom the real emit -> ast.unparse -> "
+            "ast.parse -> parse result must equal Kinds.norm. The property predicate (names, order, types, prose, explicit "
+            "defaults with their Python type, permitted normalisation only) runs on the real code for every case, inside and "
+            "outside that domain; the classes where it fails today are recorded findings."
+        ),
+        design="§7 C04",
+        note=TB + "Interface-level model (emit∘parse as one function of the IR); ast.unparse/ast.parse run for real. word_wrap is exercised only where everything fits the line (else C18).",
+    ),
 }
 
 PENDING_REASON = "check not built yet in this round (work in progress; see DESIGN.md §10 build order) — not a claim that the technique cannot apply"
